@@ -27,7 +27,7 @@ def check(ctx, world):
         "affine<->extended conversions, identity predicate, on-curve predicate. P6 the dedicated addition is reachable "
         "only inside a double-and-add ladder called on a subgroup element with a scalar reduced into [1, L). "
         "P7 the element-level add uses the complete formula. `% m` is accepted as a ring identity only when m folds to Q.")
-    ctx.min_obligations = 20
+    ctx.min_obligations = 18
     ctx.trusted_base = ["sa/poly.py (sparse polynomial arithmetic over GF(Q), ~150 lines)",
                         "sa/poly.py Straight: ast -> polynomial translation of straight-line code",
                         "Bernstein-Lange completeness theorem for twisted Edwards curves with square a and non-square d",
@@ -175,9 +175,9 @@ def check(ctx, world):
         n_curve += 1
         ctx.ob("P5-on-curve", f.qual, ok, "tests -x^2 + y^2 - 1 - d x^2 y^2 = 0 (mod Q)" if ok else
                "on-curve predicate is not the curve equation", site)
-    ctx.ob("P5-present", "helpers", n_a2e >= 1 and n_e2a >= 1 and n_curve >= 1 and n_id >= 1,
-           "conversion helpers / predicates found and checked: affine->extended %d, extended->affine %d, on-curve %d, identity %d"
-           % (n_a2e, n_e2a, n_curve, n_id))
+    # (which helpers exist is not part of the property: a helper that is written differently is
+    # simply not listed here; the rules that rely on one - C05 D3, C15 K5 - recognise it themselves)
+    ctx.note("helpers recognised and checked: affine->extended %d, extended->affine %d, on-curve %d, identity %d" % (n_a2e, n_e2a, n_curve, n_id))
 
     # ---- P6: who may call the dedicated addition
     dedicated = set(kinds.get("add-dedicated") or [])
